@@ -487,6 +487,12 @@ class SimSubprocess:
         else:
             model = None
             verdict = False
+        if verdict and shape.get("model_upto_used"):
+            # minisat and its family ignore the declared number of variables
+            # and print the model up to the highest variable that occurs
+            top = max([abs(l) for c in parsed.clauses for l in c] or [0])
+            model = [l for l in model if abs(l) <= top]
+            self.ctx.fault("model_up_to_the_highest_used_variable")
         rec["verdict"] = verdict
         rec["model"] = model
         # exit status: the SAT competition convention (10 / 20) or plain 0,
@@ -668,6 +674,8 @@ def random_shape(rng):
         s["stderr"] = [rng.randrange(7) for _ in range(rng.randint(1, 3))]
         s["stderr_first"] = rng.random() < 0.5
     s["exit_10_20"] = rng.random() < 0.6
+    if rng.random() < 0.2:
+        s["model_upto_used"] = True
     if rng.random() < 0.06:
         # a solver that only tells whether the formula is satisfiable (some
         # print the model only on request)
